@@ -701,6 +701,15 @@ func (s *Server) buildArguments(ctx context.Context, params any, method Method) 
 }
 
 func (s *Server) parseParam(param any, t reflect.Type) (reflect.Value, error) {
+	// encoding/json reads a JSON string into ANY slice whose element kind is uint8 as
+	// base64-encoded bytes, without consulting the element type's UnmarshalJSON/UnmarshalText.
+	// Only a real []byte is written that way; for a list of a uint8-based enum type
+	// (e.g. []TxnStatusWithoutL1) a string is not a list.
+	if _, isString := param.(string); isString && t.Kind() == reflect.Slice &&
+		t.Elem().Kind() == reflect.Uint8 && t.Elem() != reflect.TypeFor[byte]() {
+		return reflect.ValueOf(nil), fmt.Errorf("cannot unmarshal string into Go value of type %s", t)
+	}
+
 	handlerParam := reflect.New(t)
 	valueMarshaled, err := json.Marshal(param) // we have to marshal the value into JSON again
 	if err != nil {
